@@ -499,6 +499,47 @@ def m_x_ListComp(self, st, n, k):
     raise Untranslated('list comprehension')
 
 
+def m_x_DictComp(self, st, n, k):
+    """``{key: value for x in (literal, ...) if cond}``: a fixed, small number of iterations, executed item by item
+    (complete); keys must evaluate to literals."""
+    if len(n.generators) != 1 or not isinstance(n.generators[0].iter, (ast.Tuple, ast.List)) \
+            or not isinstance(n.generators[0].target, ast.Name) or len(n.generators[0].iter.elts) > 8:
+        raise Untranslated('expression DictComp')
+    g = n.generators[0]
+    name = g.target.id
+    missing = object()
+
+    def run(st, items):
+        saved = st.loc.get(name, missing)
+
+        def done(st, acc):
+            st.loc = dict(st.loc)
+            if saved is missing:
+                st.loc.pop(name, None)
+            else:
+                st.loc[name] = saved
+            return k(st, VDictLit(acc))
+
+        def step(st, i, acc):
+            if i == len(items):
+                return done(st, acc)
+            st.loc = dict(st.loc)
+            st.loc[name] = items[i]
+
+            def conds(st, j):
+                if j == len(g.ifs):
+                    def got_key(st, kv):
+                        if getattr(kv, 'py', None) is None:
+                            raise Untranslated('dict comprehension with a non-literal key')
+                        return self.ev(st, n.value, lambda st, vv: step(st, i + 1, acc + [(kv.py, vv)]))
+                    return self.ev(st, n.key, got_key)
+                return self.ev(st, g.ifs[j], lambda st, c: self.branch(st, self.truth(st, c), lambda st: conds(st, j + 1),
+                                                                        lambda st: step(st, i + 1, acc), 'dictcomp%d' % i))
+            return conds(st, 0)
+        return step(st, 0, [])
+    return self.ev_list(st, list(g.iter.elts), run)
+
+
 # ====================================================================== calls
 def m_x_Call(self, st, n, k):
     def got_f(st, f):
@@ -898,8 +939,12 @@ def m_call_contract(self, st, c, pos, kws, kwstar, k, site=''):
                                 self.isinst(st, v, kind[4:]), 'type of argument')
             env[p] = VRef(T.Val.rval(v.z), kind[4:])
     for p, kind in c.params.items():
-        if kind == 'conf' and isinstance(env.get(p), VDictLit) and not env[p].items:
-            env[p] = VConf(T.Conf.mkconf(z3.K(T.S, z3.BoolVal(False)), z3.K(T.S, T.Val.VN)))
+        if kind == 'conf' and isinstance(env.get(p), VDictLit) and all(isinstance(kk, str) for kk, _ in env[p].items):
+            has_, val_ = z3.K(T.S, z3.BoolVal(False)), z3.K(T.S, T.Val.VN)
+            for kk, vv in env[p].items:
+                has_ = z3.Store(has_, z3.StringVal(kk), z3.BoolVal(True))
+                val_ = z3.Store(val_, z3.StringVal(kk), self.unwrap('dyn', vv))
+            env[p] = VConf(T.Conf.mkconf(has_, val_))
         if kind == 'list' and isinstance(env.get(p), VSeqAbs):
             raise Untranslated('abstract sequence passed as a list')
     call_st = st.fork()
@@ -1244,6 +1289,29 @@ def m_bi_len(self, st, pos, kws, k):
 
 def m_bi_bool(self, st, pos, kws, k):
     return k(st, VBool(self.truth(st, pos[0])))
+
+
+def m_bi_int(self, st, pos, kws, k):
+    """int(x): an integer-like value converts to itself; anything else (floats, numeric text, objects with __int__)
+    raises TypeError or ValueError or converts to SOME integer (over-approximation)"""
+    if not pos:
+        return k(st, VInt(z3.IntVal(0)))
+    if len(pos) > 1 or kws:
+        raise Untranslated('int() with a base')
+    v = pos[0]
+    if isinstance(v, (VInt, VBool)):
+        return k(st, VInt(self.as_int(v)[0]))
+    if isinstance(v, VNone):
+        return self.do_raise(st, VExc('TypeError'))
+
+    def other(st):
+        self.do_raise(st.fork('int():TypeError'), VExc('TypeError'))
+        self.do_raise(st.fork('int():ValueError'), VExc('ValueError'))
+        return k(st, VInt(fresh('int_of', T.I)))
+    if isinstance(v, VDyn):
+        x, notint = self.as_int(v)
+        return self.branch(st, z3.Not(notint), lambda st: k(st, VInt(x)), other, 'int()')
+    return other(st)
 
 
 def m_bi_callable(self, st, pos, kws, k):
